@@ -237,7 +237,37 @@ func persistField(e *Rec, ctx *boltz.PersistContext, f Field) {
 type Store struct {
 	*boltz.BaseStore[*Rec]
 	Spec *Spec
+	// StrategyVeto, when set on a child store, is asked before the store's child-store strategy handles an
+	// update ("update") or delete ("delete") arriving through the parent store; a non-nil answer is returned
+	// as the strategy's refusal.
+	StrategyVeto func(op string, id string) error
 }
+
+// vetoableStrategy is the library's ChildStoreUpdateHandler behind an optional refusal hook.
+type vetoableStrategy struct {
+	inner *boltz.ChildStoreUpdateHandler[*Rec, *Rec]
+	s     *Store
+}
+
+func (v *vetoableStrategy) HandleUpdate(ctx boltz.MutateContext, e *Rec, checker boltz.FieldChecker) (bool, error) {
+	if v.s.StrategyVeto != nil {
+		if err := v.s.StrategyVeto("update", e.Id); err != nil {
+			return true, err
+		}
+	}
+	return v.inner.HandleUpdate(ctx, e, checker)
+}
+
+func (v *vetoableStrategy) HandleDelete(ctx boltz.MutateContext, e *Rec) error {
+	if v.s.StrategyVeto != nil {
+		if err := v.s.StrategyVeto("delete", e.Id); err != nil {
+			return err
+		}
+	}
+	return v.inner.HandleDelete(ctx, e)
+}
+
+func (v *vetoableStrategy) GetStore() boltz.Store { return v.inner.GetStore() }
 
 func NewStore(spec *Spec) *Store {
 	st := &strategy{spec: spec}
@@ -264,7 +294,7 @@ func NewStore(spec *Spec) *Store {
 	if spec.Parent != nil {
 		spec.EntityType = spec.Parent.GetEntityType()
 		parent := spec.Parent
-		parent.RegisterChildStoreStrategy(&boltz.ChildStoreUpdateHandler[*Rec, *Rec]{
+		parent.RegisterChildStoreStrategy(&vetoableStrategy{s: s, inner: &boltz.ChildStoreUpdateHandler[*Rec, *Rec]{
 			Store: s,
 			Mapper: func(ctx boltz.MutateContext, p *Rec) (*Rec, bool) {
 				// route to the child store only when child data exists (not merely because the store is extended)
@@ -283,7 +313,7 @@ func NewStore(spec *Spec) *Store {
 				c.IsSystem = p.IsSystem
 				return c, true
 			},
-		})
+		}})
 	}
 	return s
 }
